@@ -37,6 +37,7 @@ def units(tier, seed):
         for i in range(0, len(combos), step):
             us.append(('maps', n, i, min(len(combos), i + step)))
     us.append(('lists',))
+    us.append(('strsizes',))
     us.append(('dups',))
     for i in range(4 if tier == 'quick' else 64):
         us.append(('additive', i))
@@ -138,6 +139,19 @@ def run_unit(unit, drv, res, seed, tier):
                 exp = ('ok', B(any(cel_eq(x, e) for e in xs)))
                 items.append((exec_case(0, "x in l", [("l", l), ("x", x)]), exp, '`in` on a list', True))
                 items.append((exec_case(0, "l.contains(x)", [("l", l), ("x", x)]), exp, 'contains() on a list', True))
+                # the same question with the list and / or the needle written as literals, and with the elements
+                # given as variables inside a list literal
+                try:
+                    xlit = render_min(lit_expr(x))
+                except ValueError:
+                    xlit = None
+                items.append((exec_case(0, "x in %s" % llit, [("x", x)]), exp, '`in` on a list literal', True))
+                items.append((exec_case(0, "%s.contains(x)" % llit, [("x", x)]), exp, 'contains() on a list literal', True))
+                if xlit is not None:
+                    items.append((exec_case(0, "%s in %s" % (xlit, llit)), exp, '`in` on a list literal', True))
+                    items.append((exec_case(0, "%s in l" % xlit, [("l", l)]), exp, '`in` on a list', True))
+                    items.append((exec_case(0, "%s in %s" % (xlit, '[' + ', '.join('e%d' % k for k in range(n)) + ']'),
+                                            [("e%d" % k, v) for k, v in enumerate(xs)]), exp, '`in` on a list literal', True))
         cases = []
         for i, (c, exp, feat, nt) in enumerate(items):
             c = dict(c)
@@ -147,6 +161,38 @@ def run_unit(unit, drv, res, seed, tier):
         for c, r, (_, exp, feat, nt) in zip(cases, out, items):
             judge(res, c, r, exp, feat, nt)
         res.exhaustive_done['lists-len-le-5'] = True
+    elif kind == 'strsizes':
+        # size() counts code points whatever the byte layout: one multi-byte character at every byte offset
+        # 0..40 (any word-at-a-time or chunked counter meets every alignment), runs of multi-byte characters, and
+        # every way of splitting such a string in two (additivity)
+        items = []
+        texts = []
+        for ch in ('é', '日', '𝄞', '\u0301'):
+            for k in range(0, 41):
+                for j in (0, 1, 9):
+                    texts.append('a' * k + ch + 'b' * j)
+            for n in range(1, 24):
+                texts.append(ch * n)
+                texts.append('x' + ch * n + 'é')
+        for ti, t in enumerate(texts):
+            a = S(t)
+            n = len(t)
+            items.append((exec_case(0, "size(a)", [("a", a)]), ('ok', I(n)), 'size of a string', True))
+            items.append((exec_case(0, "a.size()", [("a", a)]), ('ok', I(n)), 'size of a string', True))
+            items.append((exec_case(0, "size(%s)" % render_literal(a)), ('ok', I(n)), 'size of a string', True))
+            for i in range(0, n + 1, 1 if n <= 12 or ti % 5 == 0 else 7):
+                vs = [("a", S(t[:i])), ("b", S(t[i:]))]
+                items.append((exec_case(0, "size(a + b) == size(a) + size(b)", vs), ('ok', B(True)), 'size is additive over +', True))
+                items.append((exec_case(0, "size(a + b)", vs), ('ok', I(n)), 'size is additive over +', True))
+        cases = []
+        for i, (c, exp, feat, nt) in enumerate(items):
+            c = dict(c)
+            c["id"] = i
+            cases.append(c)
+        out = drv.run(cases, 'strsizes')
+        for c, r, (_, exp, feat, nt) in zip(cases, out, items):
+            judge(res, c, r, exp, feat, nt)
+        res.exhaustive_done['string-sizes-every-byte-offset-0-40'] = True
     elif kind == 'dups':
         # a literal with pairwise distinct keys contains exactly the entries written, in any write order
         items = []
